@@ -57,6 +57,9 @@ type Violation struct {
 	Tags    []string   `json:"tags"`
 	Inputs  []InputVal `json:"inputs"`
 	Stack   []string   `json:"stack,omitempty"`
+	// Sched: found by a harness that explores schedules (vPreemptAtLocks): the
+	// native confirmation is the harness's stress function, not a replay.
+	Sched bool `json:"sched,omitempty"`
 }
 
 func (v *Violation) Signature() string {
@@ -165,6 +168,11 @@ type worker struct {
 	held   map[*value]bool // mutexes currently held
 	heldBy map[*value]*gor
 	guards []guardRec
+	// schedules at lock granularity (sched.go)
+	preemptLeft int
+	preempted   int
+	usesSched   bool
+	preemptOn   map[*value]bool
 	fcov   map[*ssa.Function]map[ssa.Instruction]bool
 	stubs  map[string]int
 	strFacts []strFact
@@ -390,6 +398,7 @@ func (w *worker) runPath(fn *ssa.Function, it *workItem) {
 	w.held = map[*value]bool{}
 	w.heldBy = map[*value]*gor{}
 	w.guards = nil
+	w.preemptLeft, w.preempted, w.usesSched, w.preemptOn = 0, 0, false, nil
 	w.strFacts = nil
 	w.side = map[*value]*omap{}
 	w.clock = nil
@@ -489,7 +498,7 @@ func (w *worker) runPath(fn *ssa.Function, it *workItem) {
 		return
 	}
 	ex.res.Paths++
-	if outcome == "ok" && w.m != nil && (len(ex.res.Samples) < ex.cfg.SampleMax) && w.modelUsable() {
+	if outcome == "ok" && w.m != nil && (len(ex.res.Samples) < ex.cfg.SampleMax) && w.modelUsable() && !w.usesSched {
 		ex.res.Samples = append(ex.res.Samples, w.sample())
 	}
 }
@@ -884,6 +893,7 @@ func (w *worker) violation(kind, label, msg string) {
 func (w *worker) violationWithModel(kind, label, msg string, m *model) {
 	v := &Violation{Kind: kind, Label: label, Msg: msg, Site: w.where(), Harness: w.ex.cfg.Harness}
 	v.Tags = append(v.Tags, w.tags...)
+	v.Sched = w.usesSched
 	v.Inputs = w.inputVals(m)
 	v.Stack = w.i.stackTrace()
 	if kind == "panic" && w.panicStack != nil {
